@@ -350,8 +350,10 @@ pub fn run(run: &'static Run) {
     run.assume("directory/file pair refs/heads/a vs refs/heads/a/b: either refusal (nothing changes) or the plain map result is accepted (loose storage cannot hold both, packed storage can); a failing commit() there may be partial as documented");
     run.assume("an absent refs/ directory is equivalent to an empty one (gitoxide deliberately prunes it, git needs it): it is re-created before git is asked");
     run.assume("states without HEAD are observed through gitoxide only (git does not recognise the directory); git 2.39 is the second observer everywhere else");
-    run.assume("Delete with PreviousValue::MustNotExist is outside the domain (documented as invalid); lock mode Immediately, no concurrent party (contention is C17)");
+    run.assume("Delete with PreviousValue::MustNotExist is outside the domain (documented as invalid); lock mode Immediately; the BFS part has no concurrent party (two concurrent transactions: sub-check concurrent-transactions; locks held by others: C17)");
     run.budget_secs(std::env::var("VERIF_C16_BUDGET").ok().and_then(|s| s.parse().ok()).unwrap_or(run.pick(55.0, 540.0)));
+    // E3 part first (seconds): two concurrent transactions under the controlled scheduler
+    crate::c16c::concurrent(run);
 
     let seen: Mutex<HashSet<u64>> = Mutex::new(HashSet::new());
     let mut frontier: Vec<Node> = Vec::new();
